@@ -30,6 +30,7 @@ import (
 	"net/http"
 	"net/http/httptest"
 	"os"
+	"os/exec"
 	"path/filepath"
 	"regexp"
 	"sort"
@@ -960,8 +961,57 @@ func zzC17Setup(t *testing.T, tb *zzC17Tables) (e *zzC17Env) {
 	return &zzC17Env{world: world, http: zzC17NewHTTP(), tables: tb, shared: map[string]*zzC17Srv{}, work: work}
 }
 
+// zzC17Shards re-executes the test binary once per shard (separate
+// processes: the working directory is per process, and the code under test
+// forces a garbage collection at every engine rebuild, which serialises
+// goroutines).  Shard k reads VERIF_IN.k, writes VERIF_OUT.k and works under
+// VERIF_C17_WORK/k.
+func zzC17Shards(t *testing.T, name string, k int) {
+	out := zzNewWriter(t, "VERIF_OUT")
+	defer out.close()
+
+	var wg sync.WaitGroup
+	codes := make([]string, k)
+	for i := 0; i < k; i++ {
+		wg.Add(1)
+		go func(i int) {
+			defer wg.Done()
+
+			sfx := "." + strconv.Itoa(i)
+			cmd := exec.Command(os.Args[0], "-test.run=^"+name+"$", "-test.timeout=30m", "-test.count=1")
+			cmd.Env = append(os.Environ(),
+				"VERIF_C17_SHARDS=0",
+				"VERIF_IN="+zzGetenv("VERIF_IN")+sfx,
+				"VERIF_OUT="+zzGetenv("VERIF_OUT")+sfx,
+				"VERIF_C17_WORK="+filepath.Join(zzGetenv("VERIF_C17_WORK"), strconv.Itoa(i)),
+				"VERIF_C17_SHARD="+strconv.Itoa(i),
+			)
+			b, err := cmd.CombinedOutput()
+			codes[i] = "ok"
+			if err != nil {
+				codes[i] = err.Error()
+				tail := string(b)
+				if len(tail) > 3000 {
+					tail = tail[len(tail)-3000:]
+				}
+
+				t.Errorf("shard %d: %v\n%s", i, err, tail)
+			}
+		}(i)
+	}
+
+	wg.Wait()
+	out.put(map[string]any{"kind": "shards", "codes": codes})
+}
+
 // TestZZVerifC17Replay is direction A.
 func TestZZVerifC17Replay(t *testing.T) {
+	if k, _ := strconv.Atoi(zzGetenv("VERIF_C17_SHARDS")); k > 0 {
+		zzC17Shards(t, "TestZZVerifC17Replay", k)
+
+		return
+	}
+
 	zzC17Quiet()
 	out := zzNewWriter(t, "VERIF_OUT")
 	defer out.close()
@@ -1052,4 +1102,556 @@ func TestZZVerifC17Replay(t *testing.T) {
 
 	out.put(map[string]any{"kind": "summary", "n": n, "steps": steps, "bad": bad, "positive": positive,
 		"accepted": accepted, "panics": panics, "per_entry": perEntry})
+}
+
+// ---------------------------------------------------------------- direction B
+
+var zzC17PlainNames = []string{"a", "b", "ab", "a.txt", "b.txt", "ab.txt", "list", "data", "x1", "lists.d", "conf"}
+
+var zzC17OddNames = []string{"a b", "é.txt", "*", "a*", "?", "[a]", "%2e%2e", "..a", "a..", "...", ".hidden",
+	"A.TXT", "-", `a\b`, "%2F", "a.txt~", "^a", "a-b", "]"}
+
+func zzC17RandName(rng *rand.Rand) (s string) {
+	if rng.Intn(4) == 0 {
+		return zzC17OddNames[rng.Intn(len(zzC17OddNames))]
+	}
+
+	return zzC17PlainNames[rng.Intn(len(zzC17PlainNames))]
+}
+
+// zzC17RandTree draws directories and files as paths relative to the root.
+func zzC17RandTree(rng *rand.Rand) (dirs, files [][]string) {
+	dirs = [][]string{{}}
+	used := map[string]bool{"": true}
+	nd := 2 + rng.Intn(5)
+	for i := 0; i < nd; i++ {
+		parent := dirs[rng.Intn(len(dirs))]
+		if len(parent) >= 3 {
+			continue
+		}
+
+		p := append(append([]string{}, parent...), zzC17RandName(rng))
+		if used[zzC17Key(p)] {
+			continue
+		}
+
+		used[zzC17Key(p)] = true
+		dirs = append(dirs, p)
+	}
+
+	nf := 4 + rng.Intn(7)
+	for i := 0; i < nf; i++ {
+		parent := dirs[rng.Intn(len(dirs))]
+		p := append(append([]string{}, parent...), zzC17RandName(rng))
+		if used[zzC17Key(p)] {
+			continue
+		}
+
+		used[zzC17Key(p)] = true
+		files = append(files, p)
+	}
+
+	return dirs, files
+}
+
+func zzC17LitSeg(name string) (seg []zzC17Tok) {
+	seg = []zzC17Tok{}
+	for _, r := range name {
+		seg = append(seg, zzC17Tok{K: "lit", C: string(r), Set: []string{}})
+	}
+
+	return seg
+}
+
+// zzC17RandGlob generalises a real path (all segments) into a glob.
+func zzC17RandGlob(rng *rand.Rand, rootLen int, target []string) (g zzC17Glob) {
+	g = zzC17Glob{Abs: true, Segs: [][]zzC17Tok{}}
+	star := []zzC17Tok{{K: "star", Set: []string{}}}
+	for i, name := range target {
+		switch {
+		case i < rootLen:
+			if rng.Intn(40) == 0 {
+				g.Segs = append(g.Segs, star)
+			} else {
+				g.Segs = append(g.Segs, zzC17LitSeg(name))
+			}
+		case rng.Intn(100) < 45:
+			g.Segs = append(g.Segs, zzC17LitSeg(name))
+		case rng.Intn(100) < 45:
+			g.Segs = append(g.Segs, star)
+		default:
+			seg := []zzC17Tok{}
+			for _, r := range name {
+				switch x := rng.Intn(100); {
+				case x < 55:
+					seg = append(seg, zzC17Tok{K: "lit", C: string(r), Set: []string{}})
+				case x < 70:
+					seg = append(seg, zzC17Tok{K: "q", Set: []string{}})
+				case x < 85:
+					set := []string{string(r)}
+					for _, o := range "abtx1" {
+						if rng.Intn(3) == 0 && o != r {
+							set = append(set, string(o))
+						}
+					}
+
+					seg = append(seg, zzC17Tok{K: "cls", Set: set})
+				default:
+					seg = append(seg, star[0])
+				}
+			}
+
+			if rng.Intn(4) == 0 {
+				j := rng.Intn(len(seg) + 1)
+				seg = append(seg[:j], append([]zzC17Tok{star[0]}, seg[j:]...)...)
+			}
+
+			g.Segs = append(g.Segs, seg)
+		}
+	}
+
+	switch rng.Intn(20) {
+	case 0:
+		if len(g.Segs) > rootLen {
+			g.Segs = g.Segs[:len(g.Segs)-1]
+		}
+	case 1:
+		g.Segs = append(g.Segs, star)
+	case 2:
+		g.Abs = false
+		g.Segs = g.Segs[rootLen:]
+	case 3:
+		j := rootLen + rng.Intn(len(g.Segs)-rootLen+1)
+		g.Segs = append(g.Segs[:j], append([][]zzC17Tok{zzC17LitSeg("x"), zzC17LitSeg("..")}, g.Segs[j:]...)...)
+	}
+
+	return g
+}
+
+// zzC17Spell applies spelling mutations that a cleaning must undo (or that
+// lead somewhere else: the spec computes where).
+func zzC17Spell(rng *rand.Rand, segs []string, minIdx int) (out []string) {
+	out = append([]string{}, segs...)
+	ins := func(j int, xs ...string) {
+		out = append(out[:j], append(append([]string{}, xs...), out[j:]...)...)
+	}
+
+	n := rng.Intn(4)
+	for k := 0; k < n; k++ {
+		j := len(out)
+		if len(out) > minIdx {
+			j = minIdx + rng.Intn(len(out)-minIdx+1)
+		}
+
+		switch rng.Intn(7) {
+		case 0:
+			ins(j, ".")
+		case 1:
+			if j > 0 {
+				ins(j, "")
+			}
+		case 2:
+			ins(j, zzC17RandName(rng), "..")
+		case 3:
+			if j > 0 && out[j-1] != "" && out[j-1] != "." && out[j-1] != ".." {
+				ins(j, "..", out[j-1])
+			}
+		case 4:
+			out = append(out, "")
+		case 5:
+			out = append(out, "..", zzC17RandName(rng))
+		case 6:
+			ins(j, "..")
+		}
+	}
+
+	return out
+}
+
+func zzC17Segs(real string) (segs []string) {
+	if real == "/" || real == "" {
+		return []string{}
+	}
+
+	return strings.Split(strings.TrimPrefix(real, "/"), "/")
+}
+
+// zzC17RandLoc draws a location aimed at (or near) a node of the tree.
+//
+// Half of the time the target is a node that some configured pattern matches
+// (path/filepath.Match is used for this CHOICE of inputs only, never for the
+// verdict), so that permitted opens are frequent enough to see.
+func zzC17RandLoc(rng *rand.Rand, w *zzC17World, nodes [][]string, cwd []string, pats []string) (l zzC17Loc) {
+	rootSegs := zzC17Segs(w.root)
+	target := append(append([]string{}, rootSegs...), nodes[rng.Intn(len(nodes))]...)
+	if rng.Intn(2) == 0 {
+		for try := 0; try < 12; try++ {
+			hit := false
+			for _, p := range pats {
+				if ok, _ := filepath.Match(p, "/"+zzC17Key(target)); ok {
+					hit = true
+				}
+			}
+
+			if hit {
+				break
+			}
+
+			target = append(append([]string{}, rootSegs...), nodes[rng.Intn(len(nodes))]...)
+		}
+	}
+	if rng.Intn(10) < 3 {
+		if rng.Intn(2) == 0 && len(target) > len(rootSegs) {
+			target[len(target)-1] = zzC17RandName(rng)
+		} else {
+			target = append(target, zzC17RandName(rng))
+		}
+	}
+
+	switch x := rng.Intn(100); {
+	case x < 60:
+		return zzC17Loc{Scheme: "none", Abs: true, Segs: zzC17Spell(rng, target, 0)}
+	case x < 80:
+		common := 0
+		for common < len(cwd) && common < len(target) && cwd[common] == target[common] {
+			common++
+		}
+
+		rel := []string{}
+		for i := common; i < len(cwd); i++ {
+			rel = append(rel, "..")
+		}
+
+		rel = append(rel, target[common:]...)
+		rel = zzC17Spell(rng, rel, 1)
+		if len(rel) > 0 && rel[0] == "" {
+			rel[0] = "."
+		}
+
+		return zzC17Loc{Scheme: "none", Abs: false, Segs: rel}
+	default:
+		sc := []string{"http", "https", "file", "file", "ftp"}[rng.Intn(5)]
+
+		return zzC17Loc{Scheme: sc, Abs: rng.Intn(3) != 0, Segs: zzC17Spell(rng, target, 1)}
+	}
+}
+
+type zzC17Name struct {
+	N  string   `json:"n"`
+	Cs []string `json:"cs"`
+}
+
+func zzC17Names(sets ...[]string) (ns []zzC17Name) {
+	seen := map[string]bool{}
+	ns = []zzC17Name{}
+	for _, set := range sets {
+		for _, n := range set {
+			if seen[n] || n == "" || n == "." || n == ".." {
+				continue
+			}
+
+			seen[n] = true
+			cs := []string{}
+			for _, r := range n {
+				cs = append(cs, string(r))
+			}
+
+			ns = append(ns, zzC17Name{N: n, Cs: cs})
+		}
+	}
+
+	return ns
+}
+
+// TestZZVerifC17Trace is direction B.
+func TestZZVerifC17Trace(t *testing.T) {
+	zzC17Quiet()
+	out := zzNewWriter(t, "VERIF_OUT")
+	defer out.close()
+
+	work, err := filepath.Abs(zzGetenv("VERIF_C17_WORK"))
+	if err != nil || zzGetenv("VERIF_C17_WORK") == "" {
+		t.Skip("no VERIF_C17_WORK")
+	}
+
+	rng := rand.New(rand.NewSource(zzSeed()))
+	epochs, stepsPer := 120, 25
+	if zzC17Tier() == "thorough" {
+		epochs = 900
+	}
+
+	h := zzC17NewHTTP()
+	defer h.srv.Close()
+
+	baseLoc := zzC17Loc{Scheme: "http", Abs: false, Segs: []string{"zzc17-base.example", "base.txt"}}
+	for ep := 0; ep < epochs; ep++ {
+		root := filepath.Join(work, "tb", "e"+strconv.Itoa(ep))
+		dirs, files := zzC17RandTree(rng)
+		rel := func(ps [][]string) (ss []string) {
+			for _, p := range ps {
+				ss = append(ss, zzC17Key(p))
+			}
+
+			return ss
+		}
+
+		world, werr := zzC17BuildWorld(root, rel(dirs), rel(files), false)
+		if werr != nil {
+			t.Fatalf("epoch %d: %v", ep, werr)
+		}
+
+		nodes := append(append([][]string{}, dirs...), files...)
+		rootSegs := zzC17Segs(root)
+		cwdRel := dirs[rng.Intn(len(dirs))]
+		cwd := append(append([]string{}, rootSegs...), cwdRel...)
+		if err = os.Chdir("/" + zzC17Key(cwd)); err != nil {
+			t.Fatalf("chdir: %v", err)
+		}
+
+		globs := []zzC17Glob{}
+		if rng.Intn(8) != 0 {
+			for i, n := 0, 1+rng.Intn(3); i < n; i++ {
+				target := append(append([]string{}, rootSegs...), nodes[rng.Intn(len(nodes))]...)
+				globs = append(globs, zzC17RandGlob(rng, len(rootSegs), target))
+			}
+		}
+
+		pats := []string{}
+		for _, g := range globs {
+			pats = append(pats, world.renderGlob(g, rng))
+		}
+
+		dataDir := filepath.Join(work, "tb", "d"+strconv.Itoa(ep))
+		_ = os.MkdirAll(dataDir, 0o755)
+		srv, serr := zzC17NewSrv(dataDir, pats, nil, nil, h.client)
+		if serr != nil {
+			t.Fatalf("epoch %d: patterns %q: %v", ep, pats, serr)
+		}
+
+		srv.start()
+
+		nameSets := [][]string{rootSegs, baseLoc.Segs}
+		for _, p := range nodes {
+			nameSets = append(nameSets, p)
+		}
+
+		// Draw the whole history first: the reset line must list every name.
+		type step struct {
+			act string
+			loc zzC17Loc
+		}
+
+		hist := []step{{act: "add", loc: baseLoc}}
+		for i := 0; i < stepsPer; i++ {
+			var act string
+			switch x := rng.Intn(100); {
+			case x < 35:
+				act = "add"
+			case x < 55:
+				act = "seturl"
+			case x < 75:
+				act = "refresh"
+			case x < 85:
+				act = "remove"
+			default:
+				act = "inject"
+			}
+
+			st := step{act: act}
+			if act != "refresh" && act != "remove" {
+				st.loc = zzC17RandLoc(rng, world, nodes, cwd, pats)
+				nameSets = append(nameSets, st.loc.Segs)
+			}
+
+			hist = append(hist, st)
+		}
+
+		out.put(map[string]any{"act": "reset", "pats": globs, "cwd": cwd, "names": zzC17Names(nameSets...),
+			"concrete": map[string]any{"root": root, "cwd": "/" + zzC17Key(cwd), "patterns": pats}})
+
+		byURL := map[string]zzC17Loc{}
+		for _, st := range hist {
+			_, _ = world.w.drain()
+			rec := map[string]any{"act": st.act}
+			url := ""
+			status := 0
+			ls := srv.lists()
+			switch st.act {
+			case "add":
+				url = world.renderLoc(st.loc, nil)
+				byURL[url] = st.loc
+				status, _ = srv.call(http.MethodPost, "/control/filtering/add_url",
+					map[string]any{"name": "l", "url": url, "whitelist": rng.Intn(3) == 0})
+			case "seturl":
+				if len(ls) == 0 {
+					continue
+				}
+
+				old := ls[rng.Intn(len(ls))]
+				url = world.renderLoc(st.loc, nil)
+				byURL[url] = st.loc
+				status, _ = srv.call(http.MethodPost, "/control/filtering/set_url", map[string]any{
+					"url": old.URL, "whitelist": old.White,
+					"data": map[string]any{"name": "l", "url": url, "enabled": rng.Intn(6) != 0},
+				})
+			case "refresh":
+				status, _ = srv.call(http.MethodPost, "/control/filtering/refresh",
+					map[string]any{"whitelist": rng.Intn(2) == 0})
+			case "remove":
+				if len(ls) == 0 {
+					continue
+				}
+
+				old := ls[rng.Intn(len(ls))]
+				url = old.URL
+				st.loc = byURL[url]
+				status, _ = srv.call(http.MethodPost, "/control/filtering/remove_url",
+					map[string]any{"url": url, "whitelist": old.White})
+			case "inject":
+				// Restart with the current lists plus one unvalidated location.
+				url = world.renderLoc(st.loc, nil)
+				byURL[url] = st.loc
+				var block, allow []FilterYAML
+				dup := false
+				for _, x := range ls {
+					dup = dup || x.URL == url
+					y := FilterYAML{Enabled: x.Enabled, URL: x.URL, Name: "l", Filter: Filter{ID: int(x.ID)}}
+					if x.White {
+						allow = append(allow, y)
+					} else {
+						block = append(block, y)
+					}
+				}
+
+				if !dup {
+					inj := FilterYAML{Enabled: true, URL: url, Name: "injected"}
+					if rng.Intn(2) == 0 {
+						allow = append(allow, inj)
+					} else {
+						block = append(block, inj)
+					}
+				}
+
+				srv.close()
+				srv, serr = zzC17NewSrv(dataDir, pats, block, allow, h.client)
+				if serr != nil {
+					t.Fatalf("epoch %d: restart: %v", ep, serr)
+				}
+
+				srv.start()
+			}
+
+			real, ovf := world.w.drain()
+			if ovf {
+				t.Fatalf("inotify overflow")
+			}
+
+			opened := [][]string{}
+			for _, p := range real {
+				opened = append(opened, world.abstract(p))
+			}
+
+			lists := []zzC17Loc{}
+			for _, x := range srv.lists() {
+				if lc, ok := byURL[x.URL]; ok {
+					lists = append(lists, lc)
+				} else {
+					t.Fatalf("list with unknown url %q", x.URL)
+				}
+			}
+
+			rec["loc"] = st.loc
+			if st.act == "refresh" {
+				rec["loc"] = zzC17Loc{Scheme: "none", Segs: []string{}}
+			}
+
+			rec["opened"] = opened
+			rec["stored"] = world.marksToPaths(srv.leaks())
+			rec["lists"] = lists
+			rec["status"] = status
+			rec["concrete"] = map[string]any{"url": url, "root": root, "cwd": "/" + zzC17Key(cwd), "patterns": pats}
+			out.put(rec)
+		}
+
+		srv.close()
+		world.w.close()
+		if zzGetenv("VERIF_C17_KEEPTREES") == "" {
+			_ = os.RemoveAll(dataDir)
+		}
+	}
+}
+
+// TestZZVerifC17Redo re-executes one trace step in isolation on the tree the
+// trace left behind: VERIF_C17_REDO = {"root","cwd","patterns","act","url"}.
+// It prints the real paths opened.
+func TestZZVerifC17Redo(t *testing.T) {
+	zzC17Quiet()
+	out := zzNewWriter(t, "VERIF_OUT")
+	defer out.close()
+
+	req := struct {
+		Root     string   `json:"root"`
+		Cwd      string   `json:"cwd"`
+		Act      string   `json:"act"`
+		URL      string   `json:"url"`
+		Patterns []string `json:"patterns"`
+	}{}
+	if err := json.Unmarshal([]byte(zzGetenv("VERIF_C17_REDO")), &req); err != nil {
+		t.Skip("no VERIF_C17_REDO")
+	}
+
+	dirs := []string{}
+	_ = filepath.WalkDir(req.Root, func(p string, d os.DirEntry, err error) error {
+		if err == nil && d.IsDir() {
+			dirs = append(dirs, p)
+		}
+
+		return nil
+	})
+
+	if err := os.Chdir(req.Cwd); err != nil {
+		t.Fatalf("chdir: %v", err)
+	}
+
+	watch, err := zzC17NewWatch(dirs)
+	if err != nil {
+		t.Fatal(err)
+	}
+	defer watch.close()
+
+	h := zzC17NewHTTP()
+	defer h.srv.Close()
+
+	dataDir := t.TempDir()
+	var block []FilterYAML
+	if req.Act == "inject" || req.Act == "refresh" {
+		block = []FilterYAML{{Enabled: true, URL: req.URL, Name: "injected", Filter: Filter{ID: 7}}}
+	}
+
+	srv, err := zzC17NewSrv(dataDir, req.Patterns, block, nil, h.client)
+	if err != nil {
+		t.Fatal(err)
+	}
+	defer srv.close()
+
+	srv.start()
+	status := 0
+	switch req.Act {
+	case "add":
+		status, _ = srv.call(http.MethodPost, "/control/filtering/add_url",
+			map[string]any{"name": "l", "url": req.URL, "whitelist": false})
+	case "seturl":
+		srv.call(http.MethodPost, "/control/filtering/add_url",
+			map[string]any{"name": "base", "url": zzC17BaseURL, "whitelist": false})
+		_, _ = watch.drain()
+		status, _ = srv.call(http.MethodPost, "/control/filtering/set_url", map[string]any{
+			"url": zzC17BaseURL, "whitelist": false,
+			"data": map[string]any{"name": "l", "url": req.URL, "enabled": true},
+		})
+	default:
+		status, _ = srv.call(http.MethodPost, "/control/filtering/refresh", map[string]any{"whitelist": false})
+	}
+
+	real, _ := watch.drain()
+	out.put(map[string]any{"kind": "redo", "status": status, "opened": real})
 }
